@@ -1,5 +1,6 @@
 import WfModel.MigrateShipped
 import WfProofs.Migrate
+import WfProofs.MigrateLoader
 /-!
 C28 — SQLite schema migrations converge from any earlier schema.
 
@@ -195,6 +196,18 @@ theorem C28_failed_not_recorded (p : String) (m : Migration) (rest : List Migrat
     runFiles p (m :: rest) applied db = .failed m.name db := by
   have hc : (applied.contains m.version || m.version == 0) = false := by simp [hn, hp]
   simp only [runFiles, hc, hf, Bool.false_eq_true, if_false]
+
+/-- The order in which the directory happens to be listed (`iterdir()` promises none) does not matter:
+any two listings of the same entries (entry names are unique in a directory) give the same run. -/
+theorem C28_listing_order_irrelevant (p : String) (fs gs : List File) (hp : fs.Perm gs)
+    (hu : ∀ f ∈ fs, ∀ g ∈ fs, f.name = g.name → f = g) (db : Db) :
+    runMigrations [(p, fs)] db = runMigrations [(p, gs)] db := by
+  simp [runMigrations, loadMigrations_perm fs gs hp hu]
+
+-- non-vacuity: the shipped directory listed backwards
+example : shippedFiles.reverse.Perm shippedFiles ∧
+    (shippedFiles.map (·.name)).Nodup ∧ shippedFiles.reverse.map (·.name) ≠ shippedFiles.map (·.name) :=
+  ⟨List.reverse_perm _, by decide +kernel, by decide +kernel⟩
 
 /-! ## the shipped table -/
 
